@@ -875,7 +875,7 @@ func (c14) Decode(raw json.RawMessage) (any, error) {
 	return &s, err
 }
 
-var popForeign = []string{"app.log.wf.%s", "app.log.audit.%s", "app.log.bak", "app.log.1.gz", "app.log.%s.gz", "app.logx.%s", "other.txt", "app.log", "app.log.2024010100000", "app.log.202401010000000", "app.log.2024010100000x", "xapp.log.%s"}
+var popForeign = []string{"app-log.%s", "appXlog.%s", "app_log.%s", "app.log.wf.%s", "app.log.audit.%s", "app.log.bak", "app.log.1.gz", "app.log.%s.gz", "app.logx.%s", "other.txt", "app.log", "app.log.2024010100000", "app.log.202401010000000", "app.log.2024010100000x", "xapp.log.%s"}
 
 func (c14) Gen(rt *rapid.T, thorough bool) any {
 	s := genRollBase(rt, thorough, 3)
@@ -921,7 +921,21 @@ func (c14) Gen(rt *rapid.T, thorough bool) any {
 		s.Pop = append(s.Pop, pf)
 	}
 	if rapid.IntRange(0, 4).Draw(rt, "dirfault") == 0 {
-		s.FaultDir = []string{rapid.SampledFrom([]string{"readdir", "info", "remove"}).Draw(rt, "dirfault_kind")}
+		s.FaultDir = []string{rapid.SampledFrom([]string{"readdir", "info", "remove", "readdir-once", "readdir-once"}).Draw(rt, "dirfault_kind")}
+	}
+	if rapid.IntRange(0, 5).Draw(rt, "dst") == 0 {
+		// a retention window that contains a change of the local UTC offset: MaxAge is in elapsed
+		// hours, whatever the wall clock did in between. The run begins two days after the zone
+		// left (or returned to) standard time.
+		s.Knobs.TZ = 3
+		day := int64(86400000)
+		s.Knobs.OffsetMs = rapid.SampledFrom([]int64{94 * day, 304 * day}).Draw(rt, "dst_start") + rapid.SampledFrom([]int64{0, 3600000 * 5, 3600000*13 + 1800000}).Draw(rt, "dst_tod")
+		s.MaxAge = rapid.SampledFrom([]int{72, 96, 168}).Draw(rt, "dst_max_age")
+		s.Interval = rapid.SampledFrom([]string{"1s", "2s"}).Draw(rt, "dst_interval")
+		for i := range s.Pop {
+			s.Pop[i].AgeH = rapid.SampledFrom([]int{s.MaxAge - 1, s.MaxAge - 1, s.MaxAge, s.MaxAge, s.MaxAge - 2, s.MaxAge + 1}).Draw(rt, "dst_age_h")
+			s.Pop[i].AgeMin = rapid.SampledFrom([]int{10, 30, 50}).Draw(rt, "dst_age_min")
+		}
 	}
 	return s
 }
@@ -947,8 +961,21 @@ func (c14) Run(x *Exec, scn any) {
 		x.FS.SetMtime(p, mtimeOf(pf))
 	}
 	for _, k := range s.FaultDir {
+		if k == "readdir-once" {
+			// one listing fails, everything afterwards works: the next cleanup has to do the job
+			x.FS.AddFault(&simos.FaultRule{Op: "readdir", Prefix: rollDir, Err: syscall.EMFILE, Count: 1})
+			continue
+		}
 		errno := map[string]syscall.Errno{"readdir": syscall.EIO, "info": syscall.ENOENT, "remove": syscall.EACCES}[k]
 		x.FS.AddFault(&simos.FaultRule{Op: k, Prefix: rollDir, Err: errno, Skip: 0, Count: 1 + len(s.Pop)/2})
+	}
+	firedTotal := func() int {
+		_, fired := x.FS.Counters()
+		n := 0
+		for _, v := range fired {
+			n += v
+		}
+		return n
 	}
 	iv := intervals[s.Interval]
 	var a, wf *log.RollingFileAppender
@@ -1021,6 +1048,7 @@ func (c14) Run(x *Exec, scn any) {
 	// one more rotation after all clock decisions: its cleanup is the one that settles the directory
 	x.Sim.Advance(iv)
 	tLastRot := verifsim.Now()
+	firedBeforeLast := firedTotal()
 	x.Sim.Spawn("last-writer", func() {
 		call(func() { write("<last>\n") })
 		if wf != nil {
@@ -1029,6 +1057,8 @@ func (c14) Run(x *Exec, scn any) {
 	})
 	x.Sim.Run(nil)
 	tEnd := verifsim.Now()
+	// the last cleanup counts as fault-free when no injected failure fired from the last rotation on
+	lastSweepClean := firedTotal() == firedBeforeLast
 	x.Sim.Spawn("stopper", stop)
 	x.Sim.Run(nil)
 	for _, t := range x.Sim.Died() {
@@ -1058,8 +1088,12 @@ func (c14) Run(x *Exec, scn any) {
 			other++
 		}
 		switch {
-		case mustGo && survivors[pf.Name] && len(s.FaultDir) == 0:
-			o.violate("expired-own-file-kept", "C14/expired-own-file-kept", "own file %s (mtime %s, %s before the last rotation at %s; maxAge %dh) survived a fault-free cleanup", pf.Name, mt.Format(time.RFC3339), tLastRot.Sub(mt), tLastRot.Format(time.RFC3339), s.MaxAge)
+		case mustGo && survivors[pf.Name] && (len(s.FaultDir) == 0 || lastSweepClean):
+			after := ""
+			if len(s.FaultDir) > 0 {
+				after = "/after-earlier-failures"
+			}
+			o.violate("expired-own-file-kept", "C14/expired-own-file-kept"+after, "own file %s (mtime %s, %s before the last rotation at %s; maxAge %dh) survived a fault-free cleanup (injected failures before it: %v)", pf.Name, mt.Format(time.RFC3339), tLastRot.Sub(mt), tLastRot.Format(time.RFC3339), s.MaxAge, s.FaultDir)
 		case mustStay && !survivors[pf.Name]:
 			class := "foreign"
 			switch {
